@@ -153,13 +153,22 @@ def rule_safe_unicode(ck, fi):
         if q.call_attr(c) == "str" and len(c.args) == 1:
             continue
         ck.ob("C45.safe-unicode", su, c, q.protected_by(pm, c, "UnicodeDecodeError") is not None, "decoding bytes in _safe_unicode is guarded against UnicodeDecodeError (non-UTF-8 bytes must still be logged)")
+    from ..x_flow import _defs_of
+    TEXT_CALLS = ("_unicode", "to_unicode", "repr", "str", "ascii", "decode")
     for r in own_nodes(su.node):
         if isinstance(r, ast.Return):
-            v = r.value
-            ok = isinstance(v, ast.Call) and q.call_attr(v) in ("_unicode", "to_unicode", "repr", "str", "ascii", "decode")
-            ck.ob("C45.safe-unicode", su, r, ok, "_safe_unicode returns text (decoded, or repr as the fallback)")
-            if any(isinstance(a, ast.ExceptHandler) for a in q.ancestors(pm, r)):
-                ck.ob("C45.safe-unicode", su, r, isinstance(v, ast.Call) and q.call_attr(v) in ("repr", "ascii"), "the fallback cannot fail for bytes (repr)", construct="fallback " + q.unparse(r))
+            # the returned expression, or - for a local - every expression bound to it
+            cands = [(r.value, r)]
+            if isinstance(r.value, ast.Name):
+                ds = _defs_of(su.node, r.value.id)
+                if not ds or any(pos is not None for _st, pos, _v in ds):
+                    raise AnalysisError("_safe_unicode returns a local that is not bound by simple assignments")
+                cands = [(v_, st_) for st_, _pos, v_ in ds]
+            for v, where in cands:
+                ok = isinstance(v, ast.Call) and q.call_attr(v) in TEXT_CALLS
+                ck.ob("C45.safe-unicode", su, where, ok, "_safe_unicode returns text (decoded, or repr as the fallback)")
+                if any(isinstance(a, ast.ExceptHandler) for a in q.ancestors(pm, where)):
+                    ck.ob("C45.safe-unicode", su, where, isinstance(v, ast.Call) and q.call_attr(v) in ("repr", "ascii"), "the fallback cannot fail for bytes (repr)", construct="fallback " + q.unparse(where))
 
 
 def run(ck):
